@@ -115,8 +115,9 @@ def cmd_run(ns):
                 f"KNOWN-FINDING: property={prop} {finding['what']}"
             )
 
-    write_evidence(prop, tier, seed, total, wall, workers, m, audit,
-                   len(confirmed), errors)
+    if not ns.no_evidence:
+        write_evidence(prop, tier, seed, total, wall, workers, m, audit,
+                       len(confirmed), errors)
 
     rate = total["runs"] / wall * 3600 if wall else 0
     print(
@@ -241,6 +242,76 @@ def cmd_selftest(ns):
     return code
 
 
+def cmd_sensitivity(ns):
+    """Apply each catalogued mutant to a scratch worktree and expect the
+    property's quick check to report a violation there."""
+    import shutil
+    import tempfile
+
+    sys.path.insert(0, os.path.join(HERE, "mutants"))
+    import catalog
+
+    groups = catalog.GROUPS
+    if ns.only:
+        groups = {k: v for k, v in groups.items() if any(o in k for o in ns.only)}
+    results = []
+    for gid, parts in groups.items():
+        prop = parts[0]["prop"]
+        scratch = tempfile.mkdtemp(prefix=f"simlab-mut-{gid}-", dir="/tmp")
+        os.rmdir(scratch)
+        subprocess.run(
+            ["git", "-C", "/repo", "worktree", "add", "--detach", "-q", scratch, "HEAD"],
+            check=True,
+        )
+        try:
+            for part in parts:
+                path = os.path.join(scratch, part["file"])
+                with open(path) as fp:
+                    text = fp.read()
+                if text.count(part["old"]) != 1:
+                    raise SystemExit(
+                        f"mutant {part['id']}: old text occurs "
+                        f"{text.count(part['old'])} times in {part['file']}"
+                    )
+                with open(path, "w") as fp:
+                    fp.write(text.replace(part["old"], part["new"]))
+            baseline = None
+            if ns.baseline:
+                proc = subprocess.run(
+                    ["/venv/bin/python", "-m", "pytest", "-q", "-x", "-p",
+                     "no:cacheprovider", "--timeout=900",
+                     "--deselect", "tests/test_audio/test_audio.py::test_can_load_clip_from_24_bit_depth_wav",
+                     "--deselect", "tests/test_audio/test_io.py::test_audio_to_bytes",
+                     "--deselect", "tests/test_audio/test_media_info.py::test_can_read_media_info",
+                     ],
+                    cwd=scratch, capture_output=True, text=True,
+                    env=dict(os.environ, PYTHONPATH=os.path.join(scratch, "src")),
+                )
+                baseline = proc.stdout.strip().splitlines()[-1] if proc.stdout.strip() else proc.stderr[-200:]
+            started = time.time()
+            proc = subprocess.run(
+                [sys.executable, os.path.join(HERE, "check.py"), "run", prop,
+                 "--tier", "quick", "--budget", str(ns.budget), "--no-evidence"],
+                capture_output=True, text=True,
+                env=dict(os.environ, VERIF_REPO=scratch,
+                         VERIF_SEED=os.environ.get("VERIF_SEED", "0")),
+            )
+            took = time.time() - started
+            lines = [ln for ln in proc.stdout.splitlines() if ln.startswith("[simlab] C") or ln.startswith("VIOLATION")]
+            results.append((gid, prop, proc.returncode, took, baseline, lines[:2]))
+            status = "DETECTED" if proc.returncode == EXIT_VIOLATION else f"MISSED(exit {proc.returncode})"
+            print(f"[sensitivity] {gid:45s} {prop} {status} {took:5.1f}s "
+                  f"baseline={baseline} {lines[0][:150] if lines else ''}", flush=True)
+            if proc.returncode == EXIT_HARNESS:
+                print(proc.stdout[-1500:])
+        finally:
+            subprocess.run(["git", "-C", "/repo", "worktree", "remove", "--force", scratch])
+            shutil.rmtree(scratch, ignore_errors=True)
+    missed = [r for r in results if r[2] != EXIT_VIOLATION]
+    print(f"[sensitivity] {len(results) - len(missed)}/{len(results)} detected")
+    return EXIT_OK if not missed else EXIT_VIOLATION
+
+
 def main(argv=None):
     argv = sys.argv[1:] if argv is None else argv
     if argv and argv[0] == "_worker":
@@ -254,13 +325,21 @@ def main(argv=None):
     run.add_argument("--workers", type=int)
     run.add_argument("--max-runs", type=int, dest="max_runs")
     run.add_argument("--no-audit", action="store_true")
+    run.add_argument("--no-evidence", action="store_true",
+                     help="do not rewrite evidence/<id>.json (sensitivity runs)")
     rep = sub.add_parser("replay")
     rep.add_argument("file")
     st = sub.add_parser("selftest")
     st.add_argument("what", choices=["determinism"])
     st.add_argument("--prop")
     st.add_argument("--runs", type=int, default=64)
+    sens = sub.add_parser("sensitivity")
+    sens.add_argument("--budget", type=float, default=20)
+    sens.add_argument("--baseline", action="store_true")
+    sens.add_argument("--only", nargs="*")
     ns = parser.parse_args(argv)
+    if ns.cmd == "sensitivity":
+        return cmd_sensitivity(ns)
     if ns.cmd == "run":
         return cmd_run(ns)
     if ns.cmd == "replay":
